@@ -266,16 +266,33 @@ def b_history(case, ctx):
             # never create a cycle: `to` must not be an ancestor of `frm`
             if frm_eff in m.nodes and to in m.ancestors(frm_eff):
                 continue
-            kw, M = op_matrix(op[3])
+            old = m.parent.get(to)
+            if op[3]["kind"] == "nudge":
+                # a small correction of the stored edge: every entry moves by a tiny fraction of its size, but by far
+                # more than the documented absolute 1e-8 "unchanged" window
+                if old is None or old[0] != frm_eff:
+                    continue
+                M = old[1].copy()
+                M[:3, 3] = M[:3, 3] * (1.0 + op[3]["rel"]) + op[3]["abs"]
+                kw = {"matrix": M.copy()}
+            else:
+                kw, M = op_matrix(op[3])
             if 0 < np.abs(M - np.eye(4)).max() < 1e-6:
                 continue  # keep clear of the documented identity filter (1e-8) of SceneGraph.get
-            old = m.parent.get(to)
-            if old is not None and old[0] == frm_eff and 0 < np.abs(old[1] - M).max() < 1e-3:
+            if old is not None and old[0] == frm_eff and 0 < np.abs(old[1] - M).max() < 1e-6:
                 continue  # keep clear of the documented 1e-8 "unchanged" shortcut
             geometry = op[4]
             if geometry is not None:
                 kw["geometry"] = geometry
+            if isinstance(kw.get("matrix"), np.ndarray):
+                kw["matrix"] = kw["matrix"].copy()  # the caller's own buffer, distinct from the model's copy
+            buf = kw.get("matrix") if isinstance(kw.get("matrix"), np.ndarray) else None
             g.update(frame_to=to, frame_from=frm, **kw)
+            if buf is not None:
+                # the caller's array stays the caller's: still writeable, and re-using it changes nothing in the graph
+                check(buf.flags.writeable, "C09|update|callers_matrix_made_readonly", where)
+                buf[:] = buf * 2.0 + 7.0
+                kinds.append("update:callers_buffer_reused")
             sub = "create" if to not in m.nodes else ("reparent" if old is not None and old[0] != frm_eff else "root_gets_parent" if old is None else "edge_change")
             m.add_node(frm_eff)
             m.add_node(to)
@@ -293,9 +310,12 @@ def b_history(case, ctx):
             if 0 < np.abs(M - np.eye(4)).max() < 1e-6:
                 continue
             old = m.parent.get(to)
-            if old is not None and old[0] == m.base and 0 < np.abs(old[1] - M).max() < 1e-3:
+            if old is not None and old[0] == m.base and 0 < np.abs(old[1] - M).max() < 1e-6:
                 continue
-            g[to] = M
+            buf = M.copy()
+            g[to] = buf
+            check(buf.flags.writeable, "C09|setitem|callers_matrix_made_readonly", where)
+            buf[:] = buf * 2.0 + 7.0
             sub = "create" if to not in m.nodes else ("reparent" if old is not None and old[0] != m.base else "edge_change")
             m.add_node(m.base)
             m.add_node(to)
@@ -369,7 +389,7 @@ def b_history(case, ctx):
     for g0, m0, k0 in originals:
         compare_all(g0, m0, [(a, b) for a in m0.nodes for b in m0.nodes], "original after edits of its copy", k0 + ["copy_then_edit_copy"])
         check_structure(g0, m0, "original after edits of its copy", "copy_then_edit_copy")
-    cls = sorted({x.split(":")[0] + (":" + x.split(":")[1] if x.startswith("update") else "") for x in kinds})
+    cls = sorted({x.split(":")[0] + (":" + x.split(":")[1] if x.startswith("update") else "") for x in kinds} | {x for x in kinds if x.endswith(":nudge")})
     for op in case.get("ops", []):
         for x in op:
             if isinstance(x, dict) and x.get("kind") in ("quaternion", "axis_angle"):
@@ -386,7 +406,9 @@ _f = lambda lo, hi: st.floats(lo, hi, allow_nan=False, allow_infinity=False)  # 
 
 @st.composite
 def transform_spec(draw):
-    kind = draw(st.sampled_from(["matrix", "matrix", "matrix", "quaternion", "axis_angle", "translation", "none"]))
+    kind = draw(st.sampled_from(["matrix", "matrix", "matrix", "quaternion", "axis_angle", "translation", "none", "nudge"]))
+    if kind == "nudge":
+        return {"kind": "nudge", "rel": draw(st.sampled_from([3e-6, -3e-6, 8e-6, 1e-4])), "abs": draw(st.sampled_from([0.0, 1e-5, -2e-6]))}
     t = [draw(_f(-10, 10)) for _ in range(3)] if draw(st.booleans()) else None
     if kind == "matrix":
         m = draw(gm.matrix(classes=["rigid", "rigid", "rotation", "translation", "similarity", "identity"], tscale=10.0))
@@ -488,4 +510,4 @@ def s_enum(ctx):
         ctx.enumerate("C09.history", cases, label="structural_histories_len6_over_3_names")
 
 
-REQUIRED_CLASSES["C09"] = ["update:reparent", "remove_node", "update:edge_change", "copy", "base_frame", "update:non_unit_quaternion", "update:non_unit_axis_angle"]
+REQUIRED_CLASSES["C09"] = ["update:reparent", "remove_node", "update:edge_change", "copy", "base_frame", "update:non_unit_quaternion", "update:non_unit_axis_angle", "update:callers_buffer_reused", "update:edge_change:nudge"]
